@@ -708,8 +708,19 @@ func (x *Exec) assignTargets(env *CEnv, as []*CExpr) []assignTarget {
 			out = append(out, assignTarget{heap: hn, key: p.T, field: -1})
 		case "allelems":
 			s := env.eval(a.Args[0])
+			if s.Ty.K == TOpaque && s.Ty.Go != nil {
+				if mt, isMap := s.Ty.Go.Underlying().(*types.Map); isMap {
+					// a map: its values, key set and length
+					vn, _, pn, _, _, _ := x.mapHeaps(env.state(), mt)
+					ln, _ := x.mapLenHeap(env.state(), mt)
+					for _, hn := range []string{vn, pn, ln} {
+						out = append(out, assignTarget{heap: hn, key: s.T, field: -1})
+					}
+					continue
+				}
+			}
 			if s.Ty.K != TSlice {
-				env.errf(a, "assigns x[*]: x must be a slice")
+				env.errf(a, "assigns x[*]: x must be a slice or a map")
 			}
 			hn, _ := x.elemHeapOf(env.state(), s.Ty.Elem)
 			out = append(out, assignTarget{heap: hn, key: slReg(s.T), field: -1, lo: slOff(s.T), hi: Add(slOff(s.T), slLen(s.T))})
